@@ -54,7 +54,10 @@ def check_input(acc, root, m, cc, enc, d):
         fp = {"clause": "aborts", "exc": esc, "root": rc}
         if esc.startswith("ESCAPE"):
             fp["where"] = w.details.get("where")
-            if fp["where"] in ("encrypted", "process_response"):
+            import re as _re
+
+            fp["msg"] = _re.sub(r"[0-9]+", "N", str(w.details.get("msg") or ""))[:44]
+            if fp["where"] in ("encrypted", "process_response") or fp["msg"].startswith(("Parameter encryption failed", "Started parsing Response")):
                 ctx = oracle.enc_context(w.events, root, enc, cc)
                 fp["requested"] = ctx["requested"]
                 fp["area_can_encrypt"] = ctx["area_can_encrypt"]
